@@ -263,6 +263,16 @@ func WriteBufferToFileIndirect(fp stdio.ReadWriteSeeker, buffer wal.OffsetIndexB
 // In order to improve testability, use this function instead of the static WriteCSM function.
 func (w *Writer) WriteCSM(csm io.ColumnSeriesMap, isVariableLength bool) error {
 	start := time.Now()
+	// Every bucket of the request is validated and serialized before the first record is queued: a
+	// request that is rejected because of one bucket must not leave rows of its other buckets in the
+	// write channel (they were flushed by the next, unrelated request).
+	type preparedWrite struct {
+		times   []time.Time
+		rowData []byte
+		dbDSV   []io.DataShape
+		tbi     *io.TimeBucketInfo
+	}
+	prepared := make([]preparedWrite, 0, len(csm))
 	for tbk, cs := range csm {
 		tf, err := tbk.GetTimeFrame()
 		if err != nil {
@@ -350,9 +360,11 @@ func (w *Writer) WriteCSM(csm io.ColumnSeriesMap, isVariableLength bool) error {
 		if err != nil {
 			return fmt.Errorf("convert column series to row series. tbk=%s: %w", tbk, err)
 		}
-		err = w.WriteRecords(times, rowData, dbDSV, tbi)
-		if err != nil {
-			return fmt.Errorf("write records to %v: %w", tbi, err)
+		prepared = append(prepared, preparedWrite{times: times, rowData: rowData, dbDSV: dbDSV, tbi: tbi})
+	}
+	for _, pw := range prepared {
+		if err := w.WriteRecords(pw.times, pw.rowData, pw.dbDSV, pw.tbi); err != nil {
+			return fmt.Errorf("write records to %v: %w", pw.tbi, err)
 		}
 	}
 
